@@ -6,7 +6,7 @@ import itertools
 import math
 from fractions import Fraction as F
 
-from . import common as C, nnm
+from . import common as C, nnm, genarith
 
 ANCHORS = nnm.ANCHORS
 WOR_KINDS = ["alpha_fixed", "alpha_shrink", "alpha_optcomp", "bet_fixed", "bet_agrapa", "kk", "sprt"]
@@ -182,6 +182,7 @@ def gen_law(rng, cfg):
 
 
 def run(ctx, res):
+    genarith.regenerate(ctx.pid, "nnm_products", res)   # regenerated tie: factors and null mean the supermartingale proofs are about
     if getattr(ctx, "replay", None):
         nnm.run_replay(ctx, res, None)
         inp = (ctx.replay.get("violation") or {}).get("input") or {}
